@@ -212,6 +212,13 @@ structure ScanSpec (e : Engine) (sr : Option ScanResult) (err : Option (Str × E
   error_names : ∀ nm k, err = some (nm, k) →
       ∃ i ∈ candidates e event.source event.id, ∃ y, (y = i ∨ y ∈ Dfs.dfsDepSearch (absEng e) i) ∧
         verdict x event e y = .err ∧ ∃ r, e.rules[y]? = some r ∧ r.name = nm
+  /-- which failing rule is named: the last one of the error record, i.e. of the failing rules listed candidate
+      by candidate in scan order — for each candidate its failing dependencies in the order of its dependency
+      list, then the candidate itself -/
+  error_last : ∀ nm k, err = some (nm, k) →
+      ∃ y, ((candidates e event.source event.id).flatMap
+              (Scan.errsOf (absEng e) (absEv x event e))).getLast? = some y ∧
+        ∃ r, e.rules[y]? = some r ∧ r.name = nm
 
 /-- **C01 / C09 / C10 / C12.** -/
 theorem C01_scan (e : Engine) (hw : WfEngine e) :
@@ -235,7 +242,10 @@ theorem C01_scan (e : Engine) (hw : WfEngine e) :
     have hm := hinv.matched
     have he := hinv.errs
     unfold Scan.scan at hm he
-    refine ⟨?_, ?_, ?_⟩
+    have hel := Scan.scan_errs_eq (absEng e') (absEv x event e') (absEng_wf hw'.toWfCore) (absEv_local x event hw')
+      (candidates e event.source event.id)
+    unfold Scan.scan at hel
+    refine ⟨?_, ?_, ?_, ?_⟩
     · rw [hS1, hm]; rfl
     · rw [hE.1]
       constructor
@@ -248,8 +258,12 @@ theorem C01_scan (e : Engine) (hw : WfEngine e) :
         intro hnil; rw [hnil] at this; cases this
     · intro nm k h
       obtain ⟨y, hy, r, hr, hn⟩ := hE.2 nm k h
-      obtain ⟨i, hi, h1, h2⟩ := (he y).mp hy
+      obtain ⟨i, hi, h1, h2⟩ := (he y).mp (List.mem_of_getLast? hy)
       exact ⟨i, hi, y, h1, h2, r, hr, hn⟩
+    · intro nm k h
+      obtain ⟨y, hy, r, hr, hn⟩ := hE.2 nm k h
+      rw [hel] at hy
+      exact ⟨y, hy, r, hr, hn⟩
 
 /-- **C09.** Scanning an engine that was built successfully never panics, whatever the event's getter
     answers (the event is an arbitrary function from segment lists to optional `FieldValue`s) -/
